@@ -384,6 +384,8 @@ int xmp_load_module(xmp_context opaque, const char *path)
 
 	m->basename = get_basename(path);
 	if (m->basename == NULL) {
+		free(m->dirname);
+		m->dirname = NULL;
 		ret = -XMP_ERROR_SYSTEM;
 		goto err;
 	}
